@@ -25,7 +25,96 @@ func runC20(c *Check) {
 	c.goroutineRules("C20", "internal/driver", []string{"grabSourcesAndBases", "concurrentGrab"})
 	c.nestedLocks()
 	c.readModifyWrite()
+	c.snapshotPublish()
 	c.perRequestState("C20-R2")
+}
+
+// snapshotPublish (R4c): the option store (driver.currentCfg) may be replaced wholesale
+// only at start-up.  A function that obtains a copy through the locked getter and later
+// hands a value to the locked setter performs a read-modify-write across two critical
+// sections; once the interactive loop or the web server runs, two such updates can
+// interleave and one is lost, although every single access is locked.
+func (c *Check) snapshotPublish() {
+	p := c.P
+	var glob *ssa.Global
+	if sp := p.SSAPkg("internal/driver"); sp != nil {
+		glob, _ = sp.Members["currentCfg"].(*ssa.Global)
+	}
+	if glob == nil {
+		c.undecided("C20-R4", "snapshot:currentCfg", "", "global driver.currentCfg not found")
+		return
+	}
+	getters, setters := map[*ssa.Function]bool{}, map[*ssa.Function]bool{}
+	forAllPkgFuncs(p, "internal/driver", func(f *ssa.Function) {
+		for _, b := range f.Blocks {
+			for _, ins := range b.Instrs {
+				switch x := ins.(type) {
+				case *ssa.Store:
+					if globalOf(x.Addr) == glob && x.Addr == ssa.Value(glob) {
+						if _, isP := x.Val.(*ssa.Parameter); isP {
+							setters[f] = true
+						}
+					}
+				case *ssa.UnOp:
+					// a whole-value load in a function returning that type (the return itself is
+					// spilled through a result cell when the unlock is deferred)
+					if x.Op == token.MUL && x.X == ssa.Value(glob) && f.Signature.Results().Len() == 1 &&
+						types.Identical(f.Signature.Results().At(0).Type(), x.Type()) {
+						getters[f] = true
+					}
+				}
+			}
+		}
+	})
+	if len(getters) == 0 || len(setters) == 0 {
+		c.undecided("C20-R4", "snapshot:currentCfg", "", fmt.Sprintf("locked accessors of driver.currentCfg not recognised (%d getters, %d setters)", len(getters), len(setters)))
+		return
+	}
+	// session roots: everything that runs once commands or requests are being served
+	var roots []*ssa.Function
+	forAllPkgFuncs(p, "internal/driver", func(f *ssa.Function) {
+		if f.Parent() != nil {
+			return
+		}
+		if f.Name() == "interactive" || f.Name() == "serveWebInterface" ||
+			(f.Signature.Recv() != nil && structName(f.Signature.Recv().Type()) == "driver.webInterface") {
+			roots = append(roots, f)
+		}
+	})
+	parent, _ := p.MG().Reach(roots, nil)
+	n := 0
+	forAllPkgFuncs(p, "internal/driver", func(f *ssa.Function) {
+		var set, get ssa.CallInstruction
+		for _, b := range f.Blocks {
+			for _, ins := range b.Instrs {
+				if call, ok := ins.(ssa.CallInstruction); ok && call.Common().StaticCallee() != nil {
+					if setters[call.Common().StaticCallee()] {
+						set = call
+					}
+					if getters[call.Common().StaticCallee()] {
+						get = call
+					}
+				}
+			}
+		}
+		if set == nil {
+			return
+		}
+		n++
+		key := "snapshot:" + fnName(f)
+		_, inSession := parent[f]
+		switch {
+		case !inSession:
+			c.ok("C20-R4", key, p.relFile(set.Pos()), fnName(f)+" replaces the option store only at start-up", "it is not reachable from the interactive loop, serveWebInterface or any web handler")
+		case get != nil:
+			c.bad("C20-R4", key, p.relFile(set.Pos()), fnName(f)+" takes a snapshot of the options with "+get.Common().StaticCallee().Name()+"() and later publishes a value with "+set.Common().StaticCallee().Name()+"(): each call is locked but the lock is released in between, so two concurrent option updates can start from the same snapshot and one is lost ("+callPath(parent, f)+")")
+		default:
+			c.bad("C20-R4", key, p.relFile(set.Pos()), fnName(f)+" replaces the whole option store while commands or requests are being served ("+callPath(parent, f)+"): concurrent single-option updates are overwritten")
+		}
+	})
+	if n == 0 {
+		c.undecided("C20-R4", "snapshot:currentCfg", "", "no caller of the option store's setter found")
+	}
 }
 
 // readModifyWrite (R4b): a function that publishes a new value of a guarded field computed
